@@ -236,6 +236,24 @@ CLAIMED = {
         '(tools/translate/conecyl_unproved.json). Trusted: Lean kernel, Mathlib, translator (validated by V each run), CCSpec.lean and its Python mirrors, '
         'Cython build not verified, rounding not modelled.',
    technique='Lean 4 proof over model regenerated from source (translator) + exact rational evaluation + translation validation + energy oracle', ref='4/C16'),
+ 'C17': dict(
+   text='Hand-written Lean model (Model/ShellNL.lean) of the non-linear glue of ConeCyl (_calc_NL_matrices: kT = k0 + k0L + k0L^T + kLL + kG with '
+        'make_symmetric and the with_k0L / with_kLL flags; calc_kT / calc_fint evaluated at calc_full_c(c, inc); fint = kernel part + k0 c) and of '
+        'integratev (point list cut into num_cores chunks of npts/num_cores points, remainder into slot 0, rows summed; integrands of the '
+        'accumulate form out = beta*out + alpha*g). 10 theorems: integratev returns the plain quadrature sum for EVERY grid, integrand and '
+        'num_cores >= 1, for the trapezoid and the Simpson point sets (whose betas are proved to be 1) - thread-count independence in exact '
+        'arithmetic; kT symmetric for all kernel outputs and flag settings; kT = kL + kG; glue-level Jacobian: if the kernel part of the internal '
+        'force expands with J = k0L + k0L^T + kLL + kG then fint expands with the assembled kT identically in the step t; fint(0) = 0; '
+        'fint - k0 c = kernel part; tangent and internal force are evaluated at the same state calc_full_c(c, inc). Tie: the four compiled '
+        'kernel entry points are wrapped to record the vector they receive and what they return; compared with the model (calc_full_c through '
+        'the Lean driver, kTuu and fint re-assembled from the recorded outputs). Implementation arm over all 12 non-linear-capable models, '
+        'cylinders and cones, both rules, with/without imperfection, prescribed amplitudes with inc != 1: symmetry, fint(0) = 0, kT d = exact '
+        '(quartic-exact 5-point) derivative of fint, quadratic vanishing of fint - k0 c, identical results for 1..8 threads. Four models whose '
+        'compiled integrands violate the Jacobian relation on the unchanged tree are recorded as known findings.',
+   note='PARTIAL: the pointwise Jacobian relation of the compiled integrands (cfk0L, cfkLL, cfkG, cffint; 13 generated modules) is a HYPOTHESIS of '
+        'the theorem and is decided on the implementation only; OpenMP scheduling / -ffast-math / rounding outside the model. Trusted: Lean kernel, '
+        'Mathlib, hand model (tied on explored cases).',
+   technique='Lean 4 proof over hand model (kernels as parameters) + recorded-kernel-call correspondence + exact finite-difference oracle', ref='4/C17'),
 }
 
 NA_REASON = {
